@@ -543,7 +543,7 @@ impl Scenario for Names {
                 self.cmp_add(ctx, line, &exp, &rb, &rm);
                 self.with_state(show_add(&rb), show_add(&rm))
             }
-            ["frommap", batch] => {
+            [op @ ("frommap" | "frommapclone"), batch] => {
                 let Some(names) = dec_batch(batch) else { return "bad-op".into() };
                 self.note(&names);
                 // the map handed over: built on a fresh map, a duplicate ends the batch
@@ -551,10 +551,40 @@ impl Scenario for Names {
                 let _ = refmap.add_named(&names);
                 let was_empty = self.reference.len() == 0;
                 let exp = self.reference.add_named(&refmap.names);
-                let mut map_b = VarNameMap::new();
-                let _ = map_b.add_named(names.iter().cloned());
-                let mut map_m = VarNameMap::new();
-                let _ = map_m.add_named(names.iter().cloned());
+                let build = || {
+                    let mut m = VarNameMap::new();
+                    let _ = m.add_named(names.iter().cloned());
+                    m
+                };
+                let (map_b, map_m) = if *op == "frommap" {
+                    (build(), build())
+                } else {
+                    // hand over *clones* of one map and drop the original: the clones must own
+                    // their names (a manager keeps the map it is given)
+                    ctx.count("op.frommapclone");
+                    let orig = build();
+                    let (c1, c2) = (orig.clone(), orig.clone());
+                    let aliased = (0..orig.len()).find(|&v| {
+                        let (a, b, c) = (orig.var_name(v), c1.var_name(v), c2.var_name(v));
+                        !a.is_empty() && (std::ptr::eq(a.as_ptr(), b.as_ptr()) || std::ptr::eq(b.as_ptr(), c.as_ptr()))
+                    });
+                    if let Some(v) = aliased {
+                        ctx.fail(
+                            "clone-aliases-storage",
+                            &format!(
+                                "`{line}`: VarNameMap::clone() shares the string storage of variable {v} ({:?}) with the original: dropping \
+                                 one of them leaves dangling names in the other (use after free / double free); the three maps are leaked \
+                                 and independent maps are used to continue",
+                                orig.var_name(v)
+                            ),
+                        );
+                        std::mem::forget((orig, c1, c2));
+                        (build(), build())
+                    } else {
+                        drop(orig);
+                        (c1, c2)
+                    }
+                };
                 let rb = conv_add(self.bare.add_named(map_b.into_names_iter()));
                 let rm = self.mref.with_manager_exclusive(|m| conv_add(m.add_named_vars_from_map(map_m)));
                 match (&exp, was_empty) {
@@ -734,7 +764,7 @@ fn sim(r: &mut Ref, line: &str) {
         ["addnamed", b] => {
             r.add_named(&dec_batch(b).unwrap());
         }
-        ["frommap", b] => {
+        ["frommap" | "frommapclone", b] => {
             let mut m = Ref::default();
             m.add_named(&dec_batch(b).unwrap());
             r.add_named(&m.names);
@@ -808,6 +838,8 @@ fn alphabet(kind: u32, n: u32) -> Vec<String> {
             o.push("addvars 1".into());
             o.push(format!("addnamed {}", b(&["a", "b"])));
             o.push(format!("addnamed {}", b(&["b", "", "a"])));
+            o.push(format!("addnamed {}", b(&["", "a"])));
+            o.push(format!("frommap {}", b(&["a"])));
             o.push("getoradd b".into());
             for v in 0..n.min(2) {
                 for x in ["", "a", "b"] {
@@ -817,6 +849,7 @@ fn alphabet(kind: u32, n: u32) -> Vec<String> {
         }
         // tiny
         _ => {
+            o.push("addvars 1".into());
             o.push(format!("addnamed {}", b(&["a", ""])));
             o.push(format!("addnamed {}", b(&["b", "a"])));
             for v in 0..n.min(2) {
@@ -981,12 +1014,26 @@ fn generate(cfg: &GenCfg, rng: &mut Rng, w: &mut dyn Write) {
         writeln!(w, "addnamed fresh|v7|never").unwrap();
         writeln!(w, "gc\nlookup never\nlookup fresh").unwrap();
     }
+    // maps handed over as clones whose original is dropped (separate cases `clone<i>`)
+    for id in 0..(if cfg.thorough { 40 } else { 6 }) {
+        writeln!(w, "case clone{id}").unwrap();
+        if id % 2 == 1 {
+            writeln!(w, "addnamed p|-|q").unwrap();
+        }
+        let k = rng.range(1, 6);
+        let b: Vec<String> = (0..k).map(|_| if rng.chance(1, 4) { String::new() } else { random_name(rng) }).collect();
+        writeln!(w, "frommapclone {}", enc_batch(&b)).unwrap();
+        writeln!(w, "gc\nnames").unwrap();
+        writeln!(w, "setname 0 renamed").unwrap();
+        writeln!(w, "frommapclone x|y|{}", enc("a longer name that is certainly heap allocated")).unwrap();
+        writeln!(w, "lookup y\nsetname 1 -\nnames").unwrap();
+    }
     // ill-formed lines
     writeln!(w, "case malformed").unwrap();
     for l in [
         "addvars", "addvars x", "addvars 5000", "addvars 1_0", "addvars +1", "addnamed", "addnamed a||b", "addnamed a|", "addnamed a b",
         "addnamed %4", "addnamed %41", "addnamed %e4", "addnamed %C3", "addnamed %C3%A4", "addnamed a,b", "setname 0", "setname x a", "setname 0 a=b", "getoradd", "getoradd a.b",
-        "lookup", "lookup *", "varname 0", "varname", "hvar 0", "hop and 0 0", "hop nand 0 0", "frommap", "frommap |", "reorder", "addvars 2",
+        "lookup", "lookup *", "varname 0", "varname", "hvar 0", "hop and 0 0", "hop nand 0 0", "frommap", "frommap |", "frommapclone", "frommapclone a b", "reorder", "addvars 2",
         "hvar 1", "hop nor 0 0", "hop and 0 1", "setname 12345678901 a", "varname 2", "names x", "gc now",
     ] {
         writeln!(w, "{l}").unwrap();
